@@ -242,6 +242,13 @@ CORPUS = [
     {"env": E0, "t0": [80, 24, 800, 480], "ops": [["CS"], ["R", 80, 24, 1600, 960], ["CS"], ["TS"], ["ES"], ["CS"]]},
     # ... but a pixel-size change that coincides with a toggle is noticed
     {"env": E0, "t0": [80, 24, 800, 480], "ops": [["CS"], ["R", 80, 24, 1600, 960], ["ES"], ["CS"], ["DS"], ["CS"]]},
+    # ... and so is one that coincides with a disable/enable round-trip of the queries (enable_queries drops the
+    # cell-size entry whatever it holds): entry made before the disabling / while disabled / through the DYNAMIC ratio
+    {"env": E0, "t0": [80, 24, 800, 480], "ops": [["CS"], ["R", 80, 24, 960, 672], ["DQ"], ["EQ"], ["CS"], ["CS"]]},
+    {"env": E0, "t0": [80, 24, 800, 480],
+     "ops": [["DQ"], ["R", 100, 30, 1000, 600], ["CS"], ["R", 100, 30, 1200, 840], ["EQ"], ["CS"]]},
+    {"env": E0, "t0": [80, 24, 800, 480],
+     "ops": [["SR", "D"], ["CR"], ["DQ"], ["R", 80, 24, 960, 672], ["EQ"], ["CR"], ["CS"]]},
     # cell-size reply preferred over text-area reply and never swapped; zero sizes
     {"env": E2, "t0": [80, 24, 807, 485], "ops": [["ES"], ["CS"], ["DQ"], ["CS"], ["DS"], ["CS"], ["EQ"], ["CS"], ["NV"], ["K"],
                                                  ["CO", 1], ["R", 80, 24, 79, 485], ["ES"], ["CS"]]},
@@ -537,7 +544,7 @@ def run(ctx):
                 "for every getter additionally the value of a twin package copy run from empty caches.  "
                 "Non-trivial: a tty, >= 2 getter calls and >= 1 state change; distinct by full case hash.  "
                 "~15% of histories break the side condition on purpose (model compared, property not judged).",
-        "samples": [describe(c) for c in cases[:2] + cases[11:12] + cases[len(CORPUS) - 4:len(CORPUS) - 3] + cases[len(CORPUS):len(CORPUS) + 3]],
+        "samples": [describe(c) for c in cases[:2] + cases[14:15] + cases[len(CORPUS) - 4:len(CORPUS) - 3] + cases[len(CORPUS):len(CORPUS) + 3]],
         "histogram": hist,
         "mismatches": mismatches,
         "failures": failures,
